@@ -207,6 +207,79 @@ func termOf(v ssa.Value) (t term, off int64, isConst bool, ok bool) {
 	return term{}, 0, false, false
 }
 
+// noWrap: Go's integer arithmetic wraps around, the facts are about mathematical
+// integers. `t + off` may be read as the mathematical sum only if t is known to lie
+// far enough from the end of the int range that the addition cannot wrap: an interval
+// bound on t, or a bound on its distance from a length (lengths are taken to lie in
+// [0, 2^62), stated in DESIGN §7). Otherwise a comparison that mentions t+off teaches
+// nothing about t, and t+off has no known bounds. (Seeded change C13-k: `next := i+1;
+// if next > len(l)` with i = MaxInt.)
+func (s state) noWrap(t term, off int64) bool {
+	if off == 0 || (t.isLen && t.w == nil) {
+		return true
+	}
+	const big = int64(1) << 62
+	if off >= big || off <= -big {
+		return false
+	}
+	// a counter: a phi of small constants and of itself plus a small positive step takes the values
+	// k, k+c, k+2c, ... one per iteration; wrapping it needs some 2^62 iterations (taken as unreachable,
+	// DESIGN §7). This is the shape of every `for i := k; ...; i++` and of the hidden index of `range`.
+	if ph, ok := t.v.(*ssa.Phi); ok && !t.isLen && t.w == nil && off > -(1<<31) && off < (1<<31) {
+		counter := true
+		for _, e := range ph.Edges {
+			if c, isC := constInt(e); isC && c > -(1<<31) && c < (1<<31) {
+				continue
+			}
+			if bo, isB := stripInt(e).(*ssa.BinOp); isB && bo.Op == token.ADD && stripInt(bo.X) == ssa.Value(ph) {
+				if c, isC := constInt(bo.Y); isC && c > 0 && c < (1<<31) {
+					continue
+				}
+			}
+			counter = false
+		}
+		if counter {
+			return true
+		}
+	}
+	f := s.get(t)
+	if off > 0 {
+		if f.maxVal() <= math.MaxInt64-off {
+			return true
+		}
+		for k, kf := range s {
+			if k.w == nil {
+				continue
+			}
+			// t - len <= hi
+			if k.v == t.v && k.isLen == t.isLen && k.wLen && kf.hi < big-off {
+				return true
+			}
+			// len - t >= lo
+			if k.w == t.v && k.wLen == t.isLen && k.isLen && kf.lo != math.MinInt64 && -kf.lo < big-off {
+				return true
+			}
+		}
+		return false
+	}
+	if f.minVal() >= math.MinInt64-off {
+		return true
+	}
+	for k, kf := range s {
+		if k.w == nil {
+			continue
+		}
+		// t - len >= lo  (len >= 0)
+		if k.v == t.v && k.isLen == t.isLen && k.wLen && kf.lo > -big-off {
+			return true
+		}
+		if k.w == t.v && k.wLen == t.isLen && k.isLen && kf.hi != math.MaxInt64 && -kf.hi > -big-off {
+			return true
+		}
+	}
+	return false
+}
+
 func sat(a int64, b int64) int64 {
 	// saturating add
 	if b > 0 && a > math.MaxInt64-b {
@@ -330,6 +403,9 @@ func (fs *Facts) applyCond(s state, cond ssa.Value, truth bool) (state, bool) {
 	// integer comparison with a constant on one side
 	tx, ox, cx, okx := termOf(bo.X)
 	ty, oy, cy, oky := termOf(bo.Y)
+	if (okx && !cx && !s.noWrap(tx, ox)) || (oky && !cy && !s.noWrap(ty, oy)) {
+		return s, true
+	}
 	if okx && oky && cx != cy {
 		var t term
 		var c int64
@@ -646,6 +722,9 @@ func (fs *Facts) bounds(v ssa.Value, b *ssa.BasicBlock) (lo, hi int64, ok bool) 
 	}
 	if isC {
 		return off, off, true
+	}
+	if !s.noWrap(t, off) {
+		return math.MinInt64, math.MaxInt64, true
 	}
 	f := s.get(t)
 	lo, hi = sat(f.minVal(), off), sat(f.maxVal(), off)
